@@ -72,6 +72,8 @@ type algDkgCase struct {
 	Exh    bool     `json:"exh"`
 	MsgLen int      `json:"msglen"`
 	Seed   int64    `json:"seed"`
+	Big    bool     `json:"big"`
+	TimeMs int      `json:"time_ms"` // deadline override (large DKGs take seconds, not milliseconds)
 }
 
 type algJob struct {
@@ -82,6 +84,29 @@ type algJob struct {
 	Lag       []algLagCase    `json:"lag"`
 	Rec       []algRecCase    `json:"rec"`
 	Dkg       []algDkgCase    `json:"dkg"`
+	BLag      []algBigLagCase `json:"blag"`
+	BChoose   []algChooseCase `json:"bchoose"`
+	BDeal     []algBigDeal    `json:"bdeal"`
+}
+
+// large sets of evaluation points (sizes up to 256, identifiers up to 65535)
+type algBigLagCase struct {
+	Cls  string  `json:"cls"`
+	Pts  []int64 `json:"pts"`
+	Seed int64   `json:"seed"`
+}
+
+// large dealings in trusted-dealer mode: real SSS.Gen, real reconstruct, partial signatures of real instances loaded with the dealt
+// shares, aggregated and verified through the public API
+type algBigDeal struct {
+	Scheme  string    `json:"scheme"`
+	N       int       `json:"n"`
+	T       int       `json:"t"`
+	Mode    string    `json:"mode"` // crypto | seeded
+	Classes []string  `json:"classes"`
+	Subs    [][]int64 `json:"subs"`
+	MsgLen  int       `json:"msglen"`
+	Seed    int64     `json:"seed"`
 }
 
 type algLog struct{}
@@ -561,6 +586,10 @@ func algDkg(c algDkgCase, timeout time.Duration) obj {
 	res := obj{"k": "dkg", "scheme": c.Scheme, "n": c.N, "t": c.T, "pos": c.Pos, "off": c.Off, "comp": c.Comp, "expect": c.Expect,
 		"ids": []uint16{}, "seed": c.Seed, "exh": c.Exh, "errs": []bool{}, "panics": []bool{}, "agree": false, "timeout": false, "subs": [][]int{},
 		"oks": []bool{}, "errtxt": "", "harness": "", "signed": false, "ms": 0}
+	res["big"] = c.Big
+	if c.TimeMs > 0 {
+		timeout = time.Duration(c.TimeMs) * time.Millisecond
+	}
 	if atomic.LoadInt32(&algTimeouts) >= 3 {
 		res["timeout"], res["harness"] = true, "skipped after repeated timeouts"
 		return res
@@ -847,6 +876,356 @@ func algSignPS(rng *mrand.Rand, parties []uint16, signers map[uint16]algParty, t
 }
 
 // ---------------------------------------------------------------------------------------------------------------------------
+// large sets: the laws of spec/Algebra.tla evaluated on the real coefficients modulo the group order
+
+const algChainBound = 131072
+
+func algBigLag(pkg string, c algBigLagCase) obj {
+	r := algOrder()
+	pk := algPkgs[pkg]
+	rng := mrand.New(mrand.NewSource(c.Seed))
+	pts := c.Pts
+	s := len(pts)
+	res := obj{"k": "blag", "pkg": pkg, "cls": c.Cls, "size": s, "pts": pts, "seed": c.Seed, "panic": "", "moments": []bool{}, "nfail": 0,
+		"firstfail": -1, "nonzero": false, "recon": false, "permsame": false, "chains": []obj{}}
+	lag := func(i int64, p []int64) *big.Int {
+		return new(big.Int).Mod(new(big.Int).SetBytes(pk.lagrange(i, p)), r)
+	}
+	lam := make([]*big.Int, s)
+	if p := algCatch(func() {
+		for m := range pts {
+			lam[m] = lag(pts[m], pts)
+		}
+	}); p != "" {
+		res["panic"] = "lagrangeCoefficient: " + p
+		return res
+	}
+	// moment law: sum_m lam[m] * pts[m]^k = [k = 0] for 0 <= k < s
+	pw := make([]*big.Int, s)
+	for m := range pw {
+		pw[m] = big.NewInt(1)
+	}
+	moments := make([]bool, s)
+	nfail, first := 0, -1
+	nonzero := true
+	for m := range lam {
+		if lam[m].Sign() == 0 {
+			nonzero = false
+		}
+	}
+	for k := 0; k < s; k++ {
+		sum := new(big.Int)
+		for m := range lam {
+			sum.Add(sum, new(big.Int).Mul(lam[m], pw[m]))
+			pw[m] = new(big.Int).Mod(new(big.Int).Mul(pw[m], big.NewInt(pts[m])), r)
+		}
+		sum.Mod(sum, r)
+		want := int64(0)
+		if k == 0 {
+			want = 1
+		}
+		moments[k] = sum.Cmp(big.NewInt(want)) == 0
+		if !moments[k] {
+			nfail++
+			if first < 0 {
+				first = k
+			}
+		}
+	}
+	res["moments"], res["nfail"], res["firstfail"], res["nonzero"] = moments, nfail, first, nonzero
+	// the coefficients reconstruct P(0) for a polynomial of degree < s (dealt by the harness at the given points, interpolated by
+	// the real Shares.reconstruct, which indexes the shares by evaluation point - 1)
+	poly := make([]*big.Int, s)
+	for i := range poly {
+		poly[i] = algRandScalar(rng, r)
+	}
+	shares := make([][]byte, pts[s-1])
+	zero := algZrBytes(new(big.Int))
+	for i := range shares {
+		shares[i] = zero
+	}
+	for _, x := range pts {
+		shares[x-1] = algZrBytes(algEval(poly, x, r))
+	}
+	if p := algCatch(func() {
+		out := new(big.Int).Mod(new(big.Int).SetBytes(pk.reconstruct(shares, pts)), r)
+		res["recon"] = out.Cmp(poly[0]) == 0
+	}); p != "" {
+		res["panic"] = "reconstruct: " + p
+		return res
+	}
+	// the order in which the points are listed must not matter
+	perm := append([]int64(nil), pts...)
+	rng.Shuffle(len(perm), func(a, b int) { perm[a], perm[b] = perm[b], perm[a] })
+	permsame := true
+	picks := []int{0, s / 2, s - 1}
+	if p := algCatch(func() {
+		for _, m := range picks {
+			if lag(pts[m], perm).Cmp(lam[m]) != 0 {
+				permsame = false
+			}
+		}
+	}); p != "" {
+		res["panic"] = "lagrangeCoefficient (permuted): " + p
+		return res
+	}
+	res["permsame"] = permsame
+	// increment law: lambda_i(S + {m}) / lambda_i(S) as a reduced rational, along the chain that adds the other points in ascending order
+	var chains []obj
+	seen := map[int]bool{}
+	for _, m := range picks {
+		if seen[m] {
+			continue
+		}
+		seen[m] = true
+		i := pts[m]
+		cur := []int64{i}
+		prev := big.NewInt(1)
+		steps := make([][]int64, 0, s-1)
+		end := false
+		if p := algCatch(func() {
+			for _, o := range pts {
+				if o == i {
+					continue
+				}
+				cur = append(cur, o)
+				v := lag(i, cur)
+				step := []int64{0, 0}
+				if prev.Sign() != 0 {
+					ratio := new(big.Int).Mul(v, new(big.Int).ModInverse(prev, r))
+					if n, d, ok := algRational(ratio.Mod(ratio, r), r, algChainBound); ok {
+						step = []int64{n, d}
+					}
+				}
+				steps = append(steps, step)
+				prev = v
+			}
+			end = prev.Cmp(lam[m]) == 0
+		}); p != "" {
+			res["panic"] = "lagrangeCoefficient (chain): " + p
+			return res
+		}
+		chains = append(chains, obj{"i": i, "steps": steps, "end": end})
+	}
+	res["chains"] = chains
+	return res
+}
+
+func algBigChoose(pkg string, c algChooseCase) obj {
+	res := obj{"k": "bchoose", "pkg": pkg, "n": c.N, "kk": c.K, "count": 0, "valid": false, "distinct": false, "lexinc": false,
+		"first": []int64{}, "last": []int64{}, "panic": ""}
+	var seq [][]int64
+	if p := algCatch(func() { seq = algPkgs[pkg].choose(c.N, c.K) }); p != "" {
+		res["panic"] = p
+		return res
+	}
+	valid, lexinc := true, true
+	for m, sub := range seq {
+		if len(sub) != c.K {
+			valid = false
+		}
+		for j, x := range sub {
+			if x < 1 || x > int64(c.N) || (j > 0 && sub[j-1] >= x) {
+				valid = false // every subset ascending, inside 1..n (so it is a k-subset)
+			}
+		}
+		if m > 0 && !algLexLess(seq[m-1], sub) {
+			lexinc = false
+		}
+	}
+	distinct := lexinc // strictly increasing in lexicographic order implies pairwise distinct
+	if !lexinc && len(seq) <= 4000000 {
+		set := make(map[string]struct{}, len(seq))
+		for _, sub := range seq {
+			cp := append([]int64(nil), sub...)
+			sort.Slice(cp, func(a, b int) bool { return cp[a] < cp[b] })
+			set[fmt.Sprint(cp)] = struct{}{}
+		}
+		distinct = len(set) == len(seq)
+	}
+	res["count"], res["valid"], res["distinct"], res["lexinc"] = len(seq), valid, distinct, lexinc
+	if len(seq) > 0 {
+		f, l := seq[0], seq[len(seq)-1]
+		if f == nil {
+			f = []int64{}
+		}
+		if l == nil {
+			l = []int64{}
+		}
+		res["first"], res["last"] = f, l
+	}
+	return res
+}
+
+func algLexLess(a, b []int64) bool {
+	for i := 0; i < len(a) && i < len(b); i++ {
+		if a[i] != b[i] {
+			return a[i] < b[i]
+		}
+	}
+	return len(a) < len(b)
+}
+
+func algBigDealRun(c algBigDeal) obj {
+	r := algOrder()
+	pk := algPkgs[c.Scheme]
+	rng := mrand.New(mrand.NewSource(c.Seed))
+	res := obj{"k": "bdeal", "scheme": c.Scheme, "n": c.N, "t": c.T, "mode": c.Mode, "classes": c.Classes, "subs": c.Subs, "seed": c.Seed,
+		"eqs": []bool{}, "oks": []bool{}, "sharesok": false, "polylen": 0, "panic": "", "errtxt": ""}
+	msgLen := c.MsgLen
+	if msgLen < 1 {
+		msgLen = 1
+	}
+	nsec := 1
+	g2 := algCurve.GenG2.Copy()
+	if c.Scheme == "ps" {
+		nsec = msgLen + 2
+		g, err := algPSG2(msgLen)
+		if err != nil {
+			res["panic"] = "cannot read the PS generator: " + err.Error()
+			return res
+		}
+		g2 = g
+	}
+	var rd io.Reader = crand.Reader
+	if c.Mode == "seeded" {
+		rd = rng
+	}
+	// deal every secret scalar with the real SSS.Gen
+	polys := make([][][]byte, nsec)
+	shares := make([][][]byte, nsec)
+	for sidx := 0; sidx < nsec; sidx++ {
+		if p := algCatch(func() { polys[sidx], shares[sidx] = pk.gen(c.N, c.T, rd) }); p != "" {
+			res["panic"] = "Gen: " + p
+			return res
+		}
+		if len(polys[sidx]) == 0 || len(shares[sidx]) != c.N {
+			res["panic"] = fmt.Sprintf("Gen returned %d coefficients and %d shares for t=%d n=%d", len(polys[sidx]), len(shares[sidx]), c.T, c.N)
+			return res
+		}
+	}
+	res["polylen"] = len(polys[0])
+	sharesok := true
+	for sidx := 0; sidx < nsec; sidx++ {
+		poly := make([]*big.Int, len(polys[sidx]))
+		for i, b := range polys[sidx] {
+			poly[i] = new(big.Int).Mod(new(big.Int).SetBytes(b), r)
+		}
+		for x := 1; x <= c.N; x++ {
+			if algEval(poly, int64(x), r).Cmp(new(big.Int).Mod(new(big.Int).SetBytes(shares[sidx][x-1]), r)) != 0 {
+				sharesok = false
+			}
+		}
+	}
+	res["sharesok"] = sharesok
+	// reconstruct over every requested subset (first secret scalar)
+	secret := new(big.Int).Mod(new(big.Int).SetBytes(polys[0][0]), r)
+	eqs := make([]bool, len(c.Subs))
+	for m, pts := range c.Subs {
+		if p := algCatch(func() {
+			out := new(big.Int).Mod(new(big.Int).SetBytes(pk.reconstruct(shares[0], pts)), r)
+			eqs[m] = out.Cmp(secret) == 0
+		}); p != "" {
+			res["panic"] = fmt.Sprintf("reconstruct (%d points): %s", len(pts), p)
+			return res
+		}
+	}
+	res["eqs"] = eqs
+	// public material: key of every share, key of the secret
+	zr := func(b []byte) *math.Zr { return algCurve.NewZrFromBytes(algZrBytes(new(big.Int).Mod(new(big.Int).SetBytes(b), r))) }
+	key := func(at func(sidx int) []byte) []byte {
+		ptsG := make([]*math.G2, nsec)
+		for sidx := range ptsG {
+			ptsG[sidx] = g2.Mul(zr(at(sidx)))
+		}
+		if c.Scheme == "bls" {
+			return ptsG[0].Bytes()
+		}
+		x := ps.XYs{X: ptsG[0].Bytes()}
+		for _, p := range ptsG[1:] {
+			x.Ys = append(x.Ys, p.Bytes())
+		}
+		b, err := asn1.Marshal(x)
+		if err != nil {
+			panic(err)
+		}
+		return b
+	}
+	parties := make([]uint16, c.N)
+	ints := make([]int, c.N)
+	pks := make([][]byte, c.N)
+	for i := range parties {
+		parties[i], ints[i] = uint16(i+1), i+1
+		pks[i] = key(func(sidx int) []byte { return shares[sidx][i] })
+	}
+	rawTPK := key(func(sidx int) []byte { return polys[sidx][0] })
+	var tpk []byte
+	var err error
+	if c.Scheme == "bls" {
+		tpk, err = asn1.Marshal(bls.PublicParams{Parties: ints, PublicKeys: pks, ThresholdPK: rawTPK})
+	} else {
+		tpk, err = asn1.Marshal(ps.ThresholdPK{TPK: rawTPK, PublicKeys: pks})
+	}
+	if err != nil {
+		res["panic"] = "public parameters: " + err.Error()
+		return res
+	}
+	// real instances loaded with the dealt shares (only the parties that occur in a subset)
+	need := map[int64]bool{}
+	for _, sub := range c.Subs {
+		for _, x := range sub {
+			need[x] = true
+		}
+	}
+	signers := map[uint16]algParty{}
+	for x := range need {
+		i := int(x - 1)
+		var sd []byte
+		if c.Scheme == "bls" {
+			sd, err = asn1.Marshal(bls.StoredData{Sk: algZrBytes(new(big.Int).Mod(new(big.Int).SetBytes(shares[0][i]), r)), PublicKeys: pks, ThresholdPK: rawTPK})
+		} else {
+			xy := ps.XYs{X: shares[0][i]}
+			for sidx := 1; sidx < nsec; sidx++ {
+				xy.Ys = append(xy.Ys, shares[sidx][i])
+			}
+			var skb []byte
+			if skb, err = asn1.Marshal(xy); err == nil {
+				sd, err = asn1.Marshal(ps.StoredData{Sk: skb, PublicKeys: pks, ThresholdPK: rawTPK})
+			}
+		}
+		if err != nil {
+			res["panic"] = "share data: " + err.Error()
+			return res
+		}
+		p := algNewParty(c.Scheme, parties[i], msgLen)
+		p.Init(append([]uint16(nil), parties...), c.T, func([]byte, bool, uint16) {})
+		if err := p.SetShareData(sd); err != nil {
+			res["panic"] = "SetShareData: " + err.Error()
+			return res
+		}
+		signers[parties[i]] = p
+	}
+	subs := make([][]int, len(c.Subs))
+	for m, sub := range c.Subs {
+		for _, x := range sub {
+			subs[m] = append(subs[m], int(x))
+		}
+	}
+	oks := make([]bool, len(subs))
+	var perr string
+	if c.Scheme == "bls" {
+		perr = algCatch(func() { algSignBLS(rng, parties, signers, tpk, subs, oks) })
+	} else {
+		perr = algCatch(func() { algSignPS(rng, parties, signers, tpk, subs, oks, msgLen) })
+	}
+	if perr != "" {
+		res["errtxt"] = "signing: " + perr
+	}
+	res["oks"] = oks
+	return res
+}
+
+// ---------------------------------------------------------------------------------------------------------------------------
 
 func init() {
 	commands["algebra"] = func() {
@@ -885,6 +1264,15 @@ func init() {
 		dr := make([]obj, len(job.Dkg))
 		algPar(len(job.Dkg), job.Workers, func(i int) { dr[i] = algDkg(job.Dkg[i], timeout) })
 		recs = append(recs, dr...)
+		bl := make([]obj, 2*len(job.BLag))
+		algPar(len(bl), job.Workers, func(i int) { bl[i] = algBigLag(pkgs[i/len(job.BLag)], job.BLag[i%len(job.BLag)]) })
+		recs = append(recs, bl...)
+		bc := make([]obj, 2*len(job.BChoose))
+		algPar(len(bc), 2, func(i int) { bc[i] = algBigChoose(pkgs[i/len(job.BChoose)], job.BChoose[i%len(job.BChoose)]) })
+		recs = append(recs, bc...)
+		bd := make([]obj, len(job.BDeal))
+		algPar(len(bd), job.Workers, func(i int) { bd[i] = algBigDealRun(job.BDeal[i]) })
+		recs = append(recs, bd...)
 		for i := range recs {
 			recs[i]["id"] = i + 1
 		}
